@@ -6,7 +6,7 @@
    species; residuals above the mole-fraction floor are validated on the implementation. *)
 From Coq Require Import Reals List Lra.
 Import ListNotations.
-From MPC Require Import Num Species RInst StatMech RVec GenSpecies RefEnergy Gibbs C02_proofs C01_proofs C09_proofs C10_proofs C10_kkt.
+From MPC Require Import Num Species RInst StatMech RVec GenSpecies RefEnergy Gibbs C02_proofs C01_proofs C09_proofs C10_proofs C10_kkt C01_unique.
 Open Scope R_scope.
 
 (* the chemical potential as coded (with V = N_tot kT / P inside Z_tot) is a function of the density n = N/V only *)
@@ -81,6 +81,35 @@ Theorem C01_mass_action_state_minimises_gibbs :
   Gibbs_fn U T P (map fst ps) <= Gibbs_fn U T P (map snd ps).
 Proof. exact kkt_point_is_minimiser. Qed.
 Print Assumptions C01_mass_action_state_minimises_gibbs.
+
+(* ... and it is the ONLY one: two fixed points of the solver for the same species data at the same (T, P) and with the same
+   constraint totals -- each with chemical potentials in the column space of the constraint matrix, each with its own
+   multipliers -- have the same number densities N_i / V, V = (sum N) k T / P (strict form of Gibbs' inequality; ideal
+   mixture as above).  What calculate_composition converges to is therefore determined by (species data, T, P, constraint
+   totals) alone: not by the starting estimate (C06), the listing order (C05) or the representation of x0 (C04). *)
+Theorem C01_equilibrium_unique :
+  forall (U : Units R) (T P : R) (ps : list (entry * entry)) (cols : list (list R)) (lam1 lam2 : list R),
+  0 < k_b U * T -> 0 < P -> ps <> [] -> Forall same_data ps -> Forall (pair_pos U T) ps ->
+  let nu := map (fun p => e_n (snd p) - e_n (fst p)) ps in
+  let mu1 := map (fun p => mu_at U T (Ntot (map fst ps) * (k_b U * T) / P) (fst p)) ps in
+  let mu2 := map (fun p => mu_at U T (Ntot (map snd ps) * (k_b U * T) / P) (snd p)) ps in
+  Forall (fun c => List.length c = List.length nu) cols ->
+  Forall2 (fun mi ai => mi = - ai) mu1 (alam RNum cols lam1 (repeat 0 (List.length nu))) ->
+  Forall2 (fun mi ai => mi = - ai) mu2 (alam RNum cols lam2 (repeat 0 (List.length nu))) ->
+  Forall (fun c => dotR c nu = 0) cols ->
+  forall p, In p ps ->
+    e_n (snd p) / (Ntot (map snd ps) * (k_b U * T) / P) = e_n (fst p) / (Ntot (map fst ps) * (k_b U * T) / P).
+Proof. exact kkt_points_same_densities. Qed.
+Print Assumptions C01_equilibrium_unique.
+
+(* the same for any two mutually stationary states: equal mole fractions *)
+Theorem C01_stationary_states_same_fractions :
+  forall (U : Units R) (T P : R) (ps : list (entry * entry)),
+  0 < k_b U * T -> 0 < P -> ps <> [] -> Forall same_data ps -> Forall (pair_pos U T) ps ->
+  stationary_against U T P ps -> stationary_against U T P (map swap ps) ->
+  forall p, In p ps -> e_n (snd p) / Ntot (map snd ps) = e_n (fst p) / Ntot (map fst ps).
+Proof. exact stationary_points_same_fractions. Qed.
+Print Assumptions C01_stationary_states_same_fractions.
 
 (* non-vacuity: O2 <-> 2 O with columns (element O; charge): nu = (1, -2) is a reaction *)
 Example C01_reaction_exists : Forall (fun c => dotR c [1; -2] = 0) [[2; 1]; [0; 0]].
